@@ -626,7 +626,8 @@ static void op(int argc, char ** argv)
         outf("ok");
 
     } else if ((!strcmp(o, "rcopy") || !strcmp(o, "rmemcpy")) && argc == 3 && x.k != KNONE
-               && (y = parse_obj(argv[2])).k == x.k && !holds(x)) {
+               && (y = parse_obj(argv[2])).k == x.k && !holds(x)
+               && (x.i == y.i || gp_of(y)->self != (void *)gp_of(x))) {
         int mc = o[1] == 'm' && x.i != y.i;
         switch (x.k) {
         case KG: if (mc) memcpy(&G[x.i], &G[y.i], sizeof(G[0])); else G[x.i] = G[y.i]; break;
